@@ -725,7 +725,28 @@ def S5(ctx: Ctx) -> RuleResult:
                 else:
                     r.ok(f'{c.name}: non-object slot {sname} is schema-checked against the current message')
             else:
-                r.fail(f'{c.name}.type_check_references:{sname}', f'references inside slot {sname} are never schema-checked', res.where)
+                # the check may sit in a hook method that the chain walk calls on every element and that this class
+                # overrides: hook(this_msg, ...) -> self.<slot>.type_check_references(this_msg, ...)
+                via_hook = None
+                for hc in [x for t in terms for x in walk(t) if isinstance(x, Call) and call_name(x) and call_recv(x) is not None and call_recv(x) != self_c
+                           and (isinstance(call_recv(x), (Sym, Opaque)) or (isinstance(call_recv(x), Call) and call_name(call_recv(x)) in ('pop', 'popleft')))]:
+                    hf = c.resolve(call_name(hc))
+                    if hf is None or hf.cls not in c.mro() or len(hf.params()) < 2:
+                        continue
+                    hparams = hf.params()
+                    passed = {hparams[i + 1]: a for i, a in enumerate(hc.args) if i + 1 < len(hparams)}
+                    passed.update({k: v for k, v in hc.kwargs})
+                    houts = ctx.ev.run(hf, {'self': self_c}, self_cls=c)
+                    for cl in method_calls(all_terms(houts), 'type_check_references'):
+                        if isinstance(call_recv(cl), Attr) and call_recv(cl).base == self_c and call_recv(cl).name == sname and cl.args and isinstance(cl.args[0], Sym):
+                            root_arg = passed.get(cl.args[0].name)
+                            via_hook = (hf.name, isinstance(root_arg, Sym) and root_arg.name == tm_param)
+                if via_hook is not None and via_hook[1]:
+                    r.ok(f'{c.name}: non-object slot {sname} is schema-checked against the current message (hook {via_hook[0]})')
+                elif via_hook is not None:
+                    r.fail(f'{c.name}.type_check_references:{sname}:root', f'references inside slot {sname} are not checked against the current message type ({tm_param}) by the hook {via_hook[0]}', res.where)
+                else:
+                    r.fail(f'{c.name}.type_check_references:{sname}', f'references inside slot {sname} are never schema-checked', res.where)
         if not others:
             r.ok(f'{c.name}: object chain via {obj_slot}')
     r.floor('accessor classes', n, 2)
